@@ -190,7 +190,8 @@ def run(chk):
             # the stored text, unquoted, is the wire value the attacker edits
             c = SimpleCookie()
             c.load((name.encode() + b'=' + raw).decode('latin1'))
-            minted.append((sec, name, v, c[name].value))
+            if name in c and c[name].value.startswith('!') and '?' in c[name].value:      # (else: not a signed value at all; the honest record above says so)
+                minted.append((sec, name, v, c[name].value))
     # ---- attacker edits on every byte position
     def attack(cls, sec, name, edited, pos=-1, orig=None):
         if edited == orig:
